@@ -164,4 +164,6 @@ def encRecordCRLF (d : Dialect) : Rec → List Char
   | [[]] => [d.quote, d.quote, '\r', '\n']
   | cs => encCellsCRLF d cs
 
+def renderCRLF (d : Dialect) (recs : List Rec) : List Char := recs.flatMap (encRecordCRLF d)
+
 end Model.Csv
